@@ -39,7 +39,10 @@ var (
 	ctlHosts     = []string{"", "a.com", "b.com", "x.a.com", "y.x.a.com", "*.a.com", "*.x.a.com", "localhost", "*.com", "a.com:8080"}
 	ctlPrefixes  = []string{"/", "/api", "/apiary", "/api/v1", "/a", "/a/b", "api/", "//x//", "/api/", "", "/ab"}
 	ctlReqHosts  = []string{"a.com", "a.com:8080", "a.com:", "b.com", "b.com:443", "x.a.com", "z.a.com", "y.x.a.com", "q.y.x.a.com", "z.x.a.com:80", "localhost", "localhost:3000", "com", "foo.com", ".a.com", "A.COM", "a.com.", "[::1]:80", "[::1]", "a:b:c", "unknown.org", "", "*.a.com", ":80"}
-	ctlReqPaths  = []string{"/", "/api", "/api/", "/apiary", "/api/v1", "/api/v1/x", "/api/v2", "/a", "/a/b", "/a/b/c", "/ab", "/ap", "/x", "/x/y", "/api//x", "//api", "/apix/../api", "/up", "/a/", "/API", ""}
+	ctlReqPaths  = []string{"/", "/api", "/api/", "/apiary", "/api/v1", "/api/v1/x", "/api/v2", "/a", "/a/b", "/a/b/c", "/ab", "/ap", "/x", "/x/y", "/api//x", "//api", "/apix/../api", "/up", "/a/", "/API", "", "/a/b/c%2Fd", "/api/v1/x%2Fy%3Bz", "/x/%7Euser"}
+	// (percent-encoded octets never directly after a path prefix of ctlPrefixes: `/a%2Fb` for a strip-prefix service on `/a` is
+	// forwarded as `%2Fb`, a request line the in-memory target rejects with 400 - see DESIGN.md 11.8; encoded paths are the
+	// rewrite engine's subject, here they only feed routing and the redirect Location)
 	ctlMsgs      = []string{"", "back soon", "down for <b>maintenance</b>", "a & b", "\"quoted\" 'single'", "{{ .Message }} {{if}}", "<script>alert(1)</script>", "1+1=2 &amp; &lt;", "é ü ✓", "</p></article>", "]</custom503>"}
 	ctlCookieVal = []string{"", "alice", "bob", "1", "22", "user-63237025", "zzz", "0000"}
 )
